@@ -51,7 +51,7 @@ class C17:
         L = [gen.header(0, case["cls"], 1)]
         lo, hi = gen.window(case["ops"], 2)
         L += [gen.op_line(0, op) for op in case["ops"]]
-        L += ["dump 0", "pres 0 %d %d" % (lo, hi), "stats 0"]
+        L += ["dump 0", "pres 0 %d %d" % (lo, hi), "q4 0 %d %d" % (lo, hi), "stats 0"]
         return L
 
     @staticmethod
@@ -59,7 +59,7 @@ class C17:
         n = len(case["ops"])
         if any(o not in ("ok", "E:VE", "E:NXE") for o in outs[1:1 + n]):
             return []
-        dump, pres, st = outs[1 + n:4 + n]
+        dump, pres, _q4, st = outs[1 + n:5 + n]
         if oracles.is_err(dump) or oracles.is_err(pres):
             return []
         if oracles.is_err(st):
@@ -158,6 +158,7 @@ class C17:
 class C20:
     id = "C20"
     chunk = 25
+    no_warm = True      # the label lines would create bare nodes in the middle of the history
 
     @staticmethod
     def cases(tier, rng):
@@ -180,7 +181,8 @@ class C20:
             vals = sorted(set(labels.values())); pv = vals[:]; rng.shuffle(pv)
             lmap = dict(zip(vals, [x + 5 for x in pv]))
             yield {"cls": 0, "rem": 1, "ops": ops, "labels": labels, "start": start, "delta": delta, "alphas": alphas,
-                   "ptype": rng.randint(0, 4), "nmap": nmap, "lmap": lmap, "equal": mode == 1, "ids": "int", "src": "rand"}
+                   "ptype": rng.randint(0, 4), "nmap": nmap, "lmap": lmap, "equal": mode == 1, "ids": "int", "src": "rand",
+                   "presort": i % 2 == 1}
 
     @staticmethod
     def lines(case):
@@ -195,6 +197,8 @@ class C20:
         # renamed copy
         L.append(gen.header(2, 0, 1))
         nm, lm = case["nmap"], case["lmap"]
+        if case.get("presort"):
+            L += ["node 2 %d" % x for x in sorted(nm.values())]
         L += [gen.op_line(2, [o[0], nm[o[1]], nm[o[2]], o[3], o[4]]) for o in case["ops"]]
         L += ["attr 2 %d %d" % (nm[n], lm[a]) for n, a in sorted(case["labels"].items())]
         L.append("conf 2 %d %d %d %d %s" % (s, d, pt, len(case["alphas"]), al))
@@ -212,7 +216,7 @@ class C20:
             return []
         i = 1 + nops + nl
         dump0, conf, sl, dump1, pres1, atrp, sconf = outs[i:i + 7]
-        j = i + 7 + 1 + nops + nl
+        j = i + 7 + 1 + nops + nl + (len(case["nmap"]) if case.get("presort") else 0)
         conf2 = outs[j]
         per_t = outs[j + 1:]
         fails = []
